@@ -2,8 +2,8 @@ SPECIFICATION Spec
 CONSTANTS
   MaxIter = 12
   Steps <- MC_StepsFull
-  Starts <- MC_Starts
-  Limits <- MC_Limits
+  Starts <- MC_StartsFull
+  Limits <- MC_LimitsFull
   Widths = {0}
   Export = TRUE
 INVARIANTS TypeOK ExportInv
